@@ -119,7 +119,7 @@ def v2_config_of(mw) -> dict:
 
 @market_builder("gmx2")
 def build_gmx2(sim, mw):
-    if sim.world.get("interval", "1min") not in ("1min", "1T", "min"):
+    if sim.world.get("interval", "1min") not in ("1min", "1T", "min") and not sim.world.get("allow_gmx2_resample"):
         raise HarnessError("gmx2 worlds run at the 1-minute interval only (GmxV2Market._resample uses a pandas API that does not exist)")
     lt, st, it = sim.token(mw["long"]), sim.token(mw["short"]), sim.token(mw.get("index", mw["long"]))
     key = MarketInfo(mw["name"], MarketTypeEnum.gmx_v2)
